@@ -93,6 +93,15 @@ def corpus():
                              _s("r", "S0", 4, 5, 2.0, _bi(60.5, 0.0, 6.6))],
                 "recomputes": [], "period": 15, "max_recompute": None, "noise": [],
                 "sched": {"type": "scripted", "default": [], "script": [{"t": 1, "sched": [["S0", [20.0] * 6], ["S1", [10.0] * 6]]}]}})
+    # contrib StochasticNetwork, early departure: q0 meets its 0.5 kWh request in period 0 while q1 waits and is swapped in
+    # by the post-charging hook (a hook that ran BEFORE the rates are recorded would lose q0's row)
+    for early in (True, False):
+        out.append({"network": "stochastic", "early_departure": early, "rand_seed": 7, "exact": True,
+                    "stations": [_st(0, 1000)], "constraint": None,
+                    "sessions": [_s("q0", "S0", 0, 4, 0.5, _bi(64.0, 1.0, 8.0)), _s("q1", "S0", 0, 3, 1.0, _bi(16.0, 0.0, 2.0)),
+                                 _s("q2", "S0", 1, 5, 4.0, _bi(16.0, 8.0, 4.0))],
+                    "recomputes": [], "period": 60, "max_recompute": 1, "noise": [],
+                    "sched": {"type": "scripted", "default": [["S0", [4.0]]], "script": []}})
     out.extend(_exact_cases_fixed())
     return out
 
